@@ -118,6 +118,15 @@ def special_matrices(rng, n):
     out.append(("toeplitz-121", [F(2) if i == j else (F(-1) if abs(i - j) == 1 else F(0)) for i in range(n) for j in range(n)]))
     out.append(("ones-plus-nI", [F(1 + n) if i == j else F(1) for i in range(n) for j in range(n)]))
     out.append(("arrow", [F(n + 1) if i == j else (F(1) if i == 0 or j == 0 else F(0)) for i in range(n) for j in range(n)]))
+    # "near-diagonal impostors": non-zero diagonal, zero first sub- and super-diagonal, entries at distance >= 2 only
+    if n >= 3:
+        for _ in range(30):
+            A = [F(rng.range(1, 4) * (1 if rng.chance(1, 2) else -1)) if i == j else
+                 (F(rng.range(-3, 3)) if abs(i - j) >= 2 and rng.chance(2, 3) else F(0)) for i in range(n) for j in range(n)]
+            if any(A[i*n+j] != 0 for i in range(n) for j in range(n) if abs(i - j) >= 2) and det_exact(A, n) != 0:
+                out.append(("gapped-band", A)); break
+        A = diag([F(2 + i) for i in range(n)]); A[n - 1] = F(1); A[(n - 1) * n] = F(-1)
+        out.append(("diag-plus-corners", A))
     for _ in range(30):      # every entry +-1: a tie in every pivot search
         A = [F(1) if rng.chance(1, 2) else F(-1) for _ in range(n * n)]
         if det_exact(A, n) != 0:
